@@ -47,7 +47,7 @@ from simkit.rng import seed_globals  # noqa: E402
 from simkit.world import InvalidScenario, Monitor, Violation, repo_exception_sig, result, run_sim  # noqa: E402
 
 PROPERTY = "C13"
-RUNS = {"quick": 2000, "thorough": 600_000}
+RUNS = {"quick": 1500, "thorough": 600_000}
 WALL = {"quick": 55, "thorough": 1500}
 BATCH = {"quick": 20, "thorough": 100}
 SELFTEST_RUNS = 8
@@ -75,6 +75,10 @@ ASSUMPTIONS = [
     "failure / flap and <= 30 % in healthy-moderate (still below the 0.5-interval ack timeout, round trip 0.6 < one "
     "round); /repo HEAD is clean of false deaths in healthy-moderate over 3000 sampled runs at 30 % and over 3000 "
     "more at 40 %, so 30 % is not at the edge of what the implementation tolerates; larger fractions are not claimed",
+    "a healthy network also answers inside the protocol's own silence budget: round trip (2 x max one-way delay) < direct-ack "
+    "window (0.5 probe interval) + suspicion_timeout; with suspicion timeouts of 5-30 % of the probe interval (generated in "
+    "40 % of the healthy runs) a round trip longer than that budget is declared DEAD by design on any tree - a configuration "
+    "whose failure detector is faster than its network, not a healthy network in the sense of the statement (weaker reading)",
     "'stops reporting it ALIVE' is satisfied by SUSPECT as well as DEAD (weaker reading)",
     "the statement does not fix the number of probe rounds; the deadline used is derived from the documented mechanism "
     "only: last contact + I + k(threshold) * max(I/2, min_std) + 3 probe intervals, where I = (2N-3) probe intervals + "
@@ -90,7 +94,7 @@ ASSUMPTIONS = [
     "phi monotonicity is judged with a relative tolerance of 1e-9 (libm erfc/log10 are not guaranteed monotone to the ulp)",
     "a restarted member (flap class) starts its protocol again with start(), as a restarted process would",
 ]
-EXPECTED_PROBES = ["probe.gossip_stale_alive_after_dead_ignored", "probe.gossip_higher_incarnation_revived_dead",
+EXPECTED_PROBES = ["probe.short_suspicion_timeout_with_late_ack", "probe.gossip_stale_alive_after_dead_ignored", "probe.gossip_higher_incarnation_revived_dead",
                    "probe.gossip_dead_verdict_applied", "probe.gossip_update_about_receiver", "probe.gossip_reordered_by_network",
                    "probe.late_ack_revived_member", "probe.live_member_suspected", "probe.suspect_revived", "probe.indirect_path_taken",
                    "probe.victim_declared_dead", "probe.dead_learned_by_gossip", "probe.victim_only_suspect_at_deadline",
@@ -142,18 +146,24 @@ def gen(rng, tier):
     n = rng.choice([3, 3, 4, 5, 5, 6, 7, 9]) if klass != "gossip" else rng.choice([3, 3, 4, 5, 6])
     p = rng.choice([0.2, 0.5, 1.0, 1.0, 2.0])
     sus = round(p * rng.choice([0.5, 1, 2, 3, 5, 8]), 4)
+    if klass in HEALTHY and rng.random() < 0.4:
+        # short suspicion timeouts (down to 5 % of the probe interval) together with delays up to the class bound
+        sus = round(p * rng.choice([0.05, 0.08, 0.1, 0.15, 0.2, 0.3]), 4)
     thr = rng.choice([1.0, 2.0, 4.0, 8.0, 8.0, 12.0, 16.0])
     # one-way delay <= 5 % of the probe interval on every link
     total = rng.choice([0.05, 0.05, 0.03, 0.01, 0.002])
     if klass == "healthy-moderate":
         total = rng.choice([0.3, 0.3, 0.28, 0.2, 0.12])
+        # the protocol's own silence budget before DEAD is ack window (0.5 p) + suspicion timeout: a healthy network
+        # answers inside it (see ASSUMPTIONS)
+        total = min(total, round(0.95 * (0.5 + sus / p) / 2, 4))
     split = rng.random()
     prof = {"base": round(p * total * split, 9), "jitter": round(p * total * (1 - split), 9)}
     per_link = {}
     if rng.random() < 0.4:  # a few links at the bound / near zero
         for _ in range(rng.randint(1, 3)):
             a, b = rng.sample(range(n), 2)
-            f = rng.choice([0.05, 0.0005]) if klass != "healthy-moderate" else rng.choice([0.3, 0.26, 0.01])
+            f = rng.choice([0.05, 0.0005]) if klass != "healthy-moderate" else min(rng.choice([0.3, 0.26, 0.12, 0.01]), total)
             per_link[f"m{a}->m{b}"] = {"base": round(p * f, 9), "jitter": 0.0}
     # members start a fraction of a probe round (or a few rounds) apart; 1 in 6 runs starts them all at once
     spread = rng.choice([0.0, 0.2, 0.3, 0.5, 1.0, 3.0])
@@ -166,7 +176,7 @@ def gen(rng, tier):
           "profile": prof, "per_link": per_link, "starts": starts}
     dl = deadline_rounds(n, p, thr, 0.05 * p)
     if klass in HEALTHY:
-        sc["horizon"] = round(p * rng.choice([30, 60, 120, 200]), 4)
+        sc["horizon"] = round(p * rng.choice([30, 60, 100, 150]), 4)
     elif klass == "gossip":
         sc["horizon"] = round(max(starts) + p * rng.choice([25, 40, 60]), 4)
         _gen_gossip(rng, sc, n, p)
@@ -368,7 +378,7 @@ def _validate(sc):
         raise InvalidScenario("n")
     p = sc.get("probe_interval", 0)
     # documented ranges (defaults 1.0 / 5.0 / 3 / 8.0; the repo's tests use 0.5 / 3.0 / 4.0): stay within a decade of them
-    if not 0.05 <= p <= 10.0 or not 0.1 * p <= sc.get("suspicion_timeout", 0) <= 100 * p \
+    if not 0.05 <= p <= 10.0 or not 0.05 * p * (1 - 1e-9) <= sc.get("suspicion_timeout", 0) <= 100 * p \
             or not 0.5 <= sc.get("phi_threshold", 0) <= 20.0:
         raise InvalidScenario("parameters outside documented ranges")
     if not 0 <= sc.get("indirect", 0) <= 8 or any(s < 0 for s in sc["starts"]):
@@ -383,6 +393,8 @@ def _validate(sc):
             raise InvalidScenario("delay bound of the healthy network exceeded")
         if set(pr) - {"base", "jitter"}:
             raise InvalidScenario("only base/jitter allowed")
+        if 2 * (pr.get("base", 0.0) + pr.get("jitter", 0.0)) >= 0.5 * p + sc.get("suspicion_timeout", 0):
+            raise InvalidScenario("round trip not inside the protocol's silence budget (ack window + suspicion timeout)")
     if sc["klass"] == "gossip":
         names = [f"m{i}" for i in range(n + 1)] + ["ghost"]
 
@@ -484,7 +496,7 @@ def run(sc):
           "same_target_probed_twice_in_a_row": 0, "phi_samples": 0, "suspected_on_missed_ack": 0,
           "never_heard_member_suspected": 0, "late_ack_revived_member": 0, "gossip_stale_alive_after_dead_ignored": 0,
           "gossip_higher_incarnation_revived_dead": 0, "gossip_dead_verdict_applied": 0, "gossip_update_about_receiver": 0,
-          "gossip_reordered_by_network": 0}
+          "gossip_reordered_by_network": 0, "short_suspicion_timeout_with_late_ack": 0}
     last_probe = {}
     past_deadline_checked = [False]
     phi_track = {}  # observer -> (heartbeat count, last phi, last t) for the victim's detector after the crash
@@ -583,6 +595,8 @@ def run(sc):
                 pr["suspect_revived"] = 1
                 if klass == "healthy-moderate" and ev.event_type == "MembershipAck":
                     pr["late_ack_revived_member"] = 1
+                    if sc["suspicion_timeout"] < 0.5 * p:
+                        pr["short_suspicion_timeout_with_late_ack"] = 1
             if st == "D" and m == vname:
                 pr["victim_declared_dead"] = 1
                 if ev.event_type != "MembershipSuspicionTimeout":
